@@ -674,9 +674,43 @@ inline void run_c19(Chooser& c, vf::Stats& st, bool record, std::string& text) {
     compare("init", 0);
     unsigned nops = 1 + c.range(0, 19);
     for (unsigned i = 0; i < nops; ++i) {
-        unsigned op = static_cast<unsigned>(c.weighted({5, 5, 1, 1}));
+        unsigned op = static_cast<unsigned>(c.weighted({5, 5, 1, 1, 1}));
         g_perm_stores = 0;
         switch (op) {
+            case 4: {
+                // rearrange: slots 0..n-1 hold generated distinct tuples; the word must list them in key order (reference order)
+                unsigned n = c.range(0, 15);
+                std::array<key_slice_type, key_slice_length> ks{};
+                std::array<key_length_type, key_slice_length> kl{};
+                std::vector<Tup> ts;
+                for (unsigned j = 0; j < n; ++j) {
+                    Tup t = gen_tuple(c);
+                    bool dup = false;
+                    for (auto& o : ts) {
+                        if (vf::ref_tuple_cmp(o.s, o.l, t.s, t.l) == 0) { dup = true; }
+                    }
+                    if (dup) { continue; }
+                    ts.push_back(t);
+                }
+                n = static_cast<unsigned>(ts.size());
+                for (unsigned j = 0; j < n; ++j) {
+                    ks.at(j) = ts[j].s;
+                    kl.at(j) = static_cast<key_length_type>(ts[j].l);
+                }
+                p.split_dest(n); // count n, identity order
+                g_perm_stores = 0;
+                p.rearrange(ks, kl);
+                std::vector<std::uint8_t> idx;
+                for (unsigned j = 0; j < n; ++j) { idx.push_back(static_cast<std::uint8_t>(j)); }
+                std::sort(idx.begin(), idx.end(), [&](std::uint8_t x, std::uint8_t y) { return vf::ref_tuple_cmp(ts[x].s, ts[x].l, ts[y].s, ts[y].l) < 0; });
+                model = idx;
+                tx << " rearrange(n=" << n << ":";
+                for (auto& t : ts) { tx << " " << tup_str(t); }
+                tx << ")";
+                if (n >= 2) { edge = true; }
+                compare("rearrange", 1);
+                break;
+            }
             case 0: { // insert at rank with the reported free slot
                 if (model.size() >= 15) { break; }
                 std::size_t rank = c.range(0, static_cast<std::uint32_t>(model.size()));
@@ -765,6 +799,76 @@ inline void c19_exhaustive(vf::Stats& st) {
         }
     }
     st.cls("exhaustive_n_rank_rotation_done");
+    // the orderings real leaves have: filled in ascending, descending, middle-out or alternating key order (slots are handed out by
+    // get_empty_slot), then every single and every double delete, each followed by the free-slot check and an insert at every rank.
+    // A defect confined to a few words (a fast path for "sorted" leaves, a mistyped constant) lives in this family, not among
+    // uniformly random orderings.
+    auto check = [&](const permutation& p, const std::vector<std::uint8_t>& m, const char* what, unsigned pat, unsigned n) {
+        ++st.checks;
+        bool ok = p.get_cnk() == m.size();
+        for (std::size_t r = 0; ok && r < m.size(); ++r) { ok = p.get_index_of_rank(r) == m[r]; }
+        if (ok && m.size() < 15) {
+            std::size_t e = p.get_empty_slot();
+            ok = e < 15 && std::find(m.begin(), m.end(), static_cast<std::uint8_t>(e)) == m.end();
+            if (!ok) {
+                std::string o;
+                for (auto x : m) { o += std::to_string(static_cast<int>(x)) + " "; }
+                throw Fail{"perm_empty_slot", "structured family (" + std::string(what) + ", fill pattern " + std::to_string(pat) + ", n=" + std::to_string(n) +
+                                                      "): get_empty_slot returned slot " + std::to_string(e) + " which is in use; ordering [" + o + "]"};
+            }
+        }
+        if (!ok) {
+            throw Fail{std::string("perm_") + what, "structured family: wrong word after " + std::string(what) + " (fill pattern " + std::to_string(pat) + ", n=" + std::to_string(n) + ")"};
+        }
+    };
+    auto insert_everywhere = [&](const permutation& p0, const std::vector<std::uint8_t>& m0, unsigned pat, unsigned n) {
+        if (m0.size() >= 15) { return; }
+        for (std::size_t rank = 0; rank <= m0.size(); ++rank) {
+            permutation q(p0.get_body());
+            std::vector<std::uint8_t> m = m0;
+            std::size_t slot = q.get_empty_slot();
+            q.insert_rank(rank, slot);
+            m.insert(m.begin() + static_cast<long>(rank), static_cast<std::uint8_t>(slot));
+            check(q, m, "insert_rank", pat, n);
+        }
+    };
+    for (unsigned pat = 0; pat < 4; ++pat) {
+        for (unsigned n = 0; n <= 15; ++n) {
+            permutation p;
+            std::vector<std::uint8_t> m;
+            for (unsigned i = 0; i < n; ++i) {
+                std::size_t rank = 0;
+                switch (pat) {
+                    case 0: rank = m.size(); break;        // ascending keys
+                    case 1: rank = 0; break;               // descending keys
+                    case 2: rank = m.size() / 2; break;    // middle-out
+                    default: rank = (i % 2 == 0) ? 0 : m.size(); // alternating ends
+                }
+                std::size_t slot = p.get_empty_slot();
+                p.insert_rank(rank, slot);
+                m.insert(m.begin() + static_cast<long>(rank), static_cast<std::uint8_t>(slot));
+                check(p, m, "insert_rank", pat, n);
+            }
+            insert_everywhere(p, m, pat, n);
+            for (std::size_t d1 = 0; d1 < m.size(); ++d1) {
+                permutation p1(p.get_body());
+                std::vector<std::uint8_t> m1 = m;
+                p1.delete_rank(d1);
+                m1.erase(m1.begin() + static_cast<long>(d1));
+                check(p1, m1, "delete_rank", pat, n);
+                insert_everywhere(p1, m1, pat, n);
+                for (std::size_t d2 = 0; d2 < m1.size(); ++d2) {
+                    permutation p2(p1.get_body());
+                    std::vector<std::uint8_t> m2 = m1;
+                    p2.delete_rank(d2);
+                    m2.erase(m2.begin() + static_cast<long>(d2));
+                    check(p2, m2, "delete_rank", pat, n);
+                    insert_everywhere(p2, m2, pat, n);
+                }
+            }
+        }
+    }
+    st.cls("exhaustive_structured_fill_delete_family_done");
 }
 
 inline vf::CaseResult run_case(const vf::RunnerArgs& args, const std::vector<std::uint8_t>& bytes, bool record, vf::Stats& st) {
